@@ -36,6 +36,15 @@ var Contexts = []Context{
 	{`{"a":{},"b":`, `}`},
 	{"", " 1"},
 	{`[1,[2,`, `],3]`},
+	// later values inside NESTED containers: the machines embed separate copies of the
+	// array/object skippers, with their own states for first and later members
+	{`[{"a":1,"b":`, `}]`},
+	{`{"a":{"b":1,"c":`, `}}`},
+	{`[[1,`, `]]`},
+	{`{"a":[1,`, `]}`},
+	{`[{"a":[`, `]}]`},
+	{`{"a":1,"b":{"c":`, `}}`},
+	{`[0,{"a":`, `}]`},
 }
 
 // ReducedContexts is the subset used by the splice family W2.
@@ -103,7 +112,9 @@ func Seeds() []string {
 		}
 	}
 	for _, s := range StringTokens {
-		out = append(out, "{"+s+":1}", `{"a":1,`+s+":2}", "[{"+s+":null}]", "{ "+s+" : [] }")
+		out = append(out, "{"+s+":1}", `{"a":1,`+s+":2}", "[{"+s+":null}]", "{ "+s+" : [] }",
+			// keys of nested objects, first and later, under arrays and under objects
+			`[{"a":1,`+s+`:2}]`, `{"k":{`+s+`:1}}`, `{"k":{"a":1,`+s+`:2}}`, `[[{`+s+`:1}]]`, `{"a":0,"k":{`+s+`:1}}`, `[0,{`+s+`:1}]`)
 	}
 	out = append(out, LongSeeds...)
 	return out
@@ -386,6 +397,59 @@ func W2T(allBytesToo bool, sink Sink) {
 				c.Desc = ""
 				c.P = [4]int{pi, b, hi, 0}
 				sink(c)
+			}
+		}
+	}
+}
+
+// W1R whitespace-run family: a value with a long run of whitespace before or after it (lengths
+// 1..20 and around 32 and 64) in which one position holds a non-whitespace byte. Scanners with
+// word-at-a-time fast paths are position sensitive (seeded change C01r2-m2 hid NUL/VT/FF
+// acceptance behind an 8-byte fast path that a one-byte sweep of short seeds cannot reach).
+func W1R(sink Sink) {
+	bases := []string{"1", "null", `"a"`, "[1]", `{"a":1}`, "true", "-0.5e3", "[]"}
+	bad := []byte{0x00, 0x01, 0x08, 0x0b, 0x0c, 0x0e, 0x1f, 0x7f, 0x85, 0xa0, 'x', ',', '0', '"'}
+	lens := []int{1, 2, 3, 4, 5, 6, 7, 8, 9, 10, 11, 12, 13, 14, 15, 16, 17, 18, 19, 20, 24, 31, 32, 33, 40, 63, 64, 65}
+	wsb := " \t\n\r"
+	c := &h.Case{Family: "W1R"}
+	c.DescFn = func(c *h.Case) string {
+		side := "before"
+		if c.P[3]&1 == 1 {
+			side = "after"
+		}
+		return fmt.Sprintf("base %q, whitespace run of %d %s it with byte 0x%02x at run offset %d", bases[c.P[0]], c.P[1], side, c.P[3]>>1, c.P[2])
+	}
+	buf := make([]byte, 0, 256)
+	run := make([]byte, 0, 80)
+	for bi, base := range bases {
+		for _, L := range lens {
+			for pos := -1; pos < L; pos++ {
+				for _, bb := range bad {
+					run = run[:0]
+					for i := 0; i < L; i++ {
+						run = append(run, wsb[(i+bi)%4])
+					}
+					if pos >= 0 {
+						run[pos] = bb
+					}
+					for side := 0; side < 2; side++ {
+						buf = buf[:0]
+						if side == 0 {
+							buf = append(buf, run...)
+							buf = append(buf, base...)
+						} else {
+							buf = append(buf, base...)
+							buf = append(buf, run...)
+						}
+						c.Input = buf
+						c.Desc = ""
+						c.P = [4]int{bi, L, pos, int(bb)<<1 | side}
+						sink(c)
+					}
+					if pos < 0 {
+						break
+					}
+				}
 			}
 		}
 	}
